@@ -7,9 +7,41 @@ package template
 //@   property C12
 //@   trusted "builds a map of maps (tag -> service set) and a FuncMap of closures for text/template: maps holding maps are outside the modelled subset"
 
+// Rendering itself is text/template's business (external; the templates are not Go code): exec is recorded as an effect
+// whose payload is the template descriptor it was called on and whose result is the rendered text.
+//@ func (tpl).exec effect
+//@   property C12
+//@   trusted "parses and executes a text/template (external library, reflection-driven); the call is recorded as an effect"
+//@ interface codeFormatter.Format(c string) (r string, err error) effect
+
+// C04 / C02 / C10: what is rendered is the compiled Output exactly as the compile steps and validators left it (same
+// services, decorators and parameters, in the same order), together with the builder's own settings; the body is
+// rendered before the head (the head lists the imports the body asked for), the text handed to the formatter is head
+// followed by body, the result is the formatter's; a failing template or formatter yields an error.
 //@ func (Builder).Build
-//@   property C12 C10
+//@   property C12 C10 C04 C02 C14
 //@   requires [wired] b.formatter != nil
+//@   ensures [body_is_rendered_from_the_given_output] exists k int :: old(tlen()) <= k && k < tlen() && evIs(k, "internal/pkg/template:(tpl).exec")
+//@        && evArg(k, tpl).name == "body.go.tpl" && evArg(k, tpl).data == boxed(data(b.importsProvider, o, b.buildInfo, b.stub))
+//@   ensures [templates_see_only_the_given_output] forall k int :: old(tlen()) <= k && k < tlen() && evIs(k, "internal/pkg/template:(tpl).exec") ==>
+//@        evArg(k, tpl).data == boxed(data(b.importsProvider, o, b.buildInfo, b.stub))
+//@   ensures [head_is_rendered_after_the_body] forall h int :: old(tlen()) <= h && h < tlen() && evIs(h, "internal/pkg/template:(tpl).exec") && evArg(h, tpl).name == "head.go.tpl" ==>
+//@        (exists k int :: old(tlen()) <= k && k < h && evIs(k, "internal/pkg/template:(tpl).exec") && evArg(k, tpl).name == "body.go.tpl" && evErr(k) == nil)
+//@   ensures [success_is_the_formatted_head_and_body] result.1 == nil ==> (exists k int, h int, f int :: old(tlen()) <= k && k < h && h < f && f < tlen()
+//@        && evIs(k, "internal/pkg/template:(tpl).exec") && evArg(k, tpl).name == "body.go.tpl" && evErr(k) == nil
+//@        && evIs(h, "internal/pkg/template:(tpl).exec") && evArg(h, tpl).name == "head.go.tpl" && evErr(h) == nil
+//@        && evIs(f, "internal/pkg/template:codeFormatter.Format") && evS1(f) == evS1(h) + evS1(k) && result.0 == evS2(f) && evErr(f) == nil)
+//@   ensures [failure_of_a_template_or_of_the_formatter_is_reported] (exists k int :: old(tlen()) <= k && k < tlen() && evErr(k) != nil) ==> result.1 != nil
+
+// C10 / C14: the rendered source is gofmt'ed and then always passed through the import pruning pass (that is what keeps
+// the import block to the packages the file uses, in normal and in stub mode); a source that does not parse is an error
+// and yields no text.
+//@ func (CodeFormatter).Format
+//@   property C10 C14 C12
+//@   ensures [syntax_error_yields_no_text] format.Source(toBytes(c)).1 != nil ==> result.0 == "" && result.1 != nil
+//@   ensures [formatted_then_unused_imports_pruned] format.Source(toBytes(c)).1 == nil ==>
+//@        result.0 == fromBytes(imports.Process("", reEmptyNewLines.ReplaceAll(format.Source(toBytes(c)).0, toBytes("\n\t")), nil).0)
+//@        && ((result.1 == nil) <==> (imports.Process("", reEmptyNewLines.ReplaceAll(format.Source(toBytes(c)).0, toBytes("\n\t")), nil).1 == nil))
 
 // ---- constructors
 //@ func NewBuilder
